@@ -301,6 +301,11 @@ func unmarshalObject(dec *msgpack.Decoder, atys map[string]cty.Type, path cty.Pa
 		vals[key] = val
 	}
 
+	if len(vals) != len(atys) {
+		// (only possible if an attribute name was repeated)
+		return cty.DynamicVal, path[:len(path)-1].NewErrorf("an object with %d distinct attributes is required", len(atys))
+	}
+
 	return cty.ObjectVal(vals), nil
 }
 
